@@ -11,11 +11,13 @@ import random
 import impl
 import lib
 import iotie
+import serdesasttie
 from lib import coq_list
 import c18_objs as O
 
 COQ_TARGETS = ["theories/Proofs/IterLemmas.vo", "theories/Model/IterEq.vo", "theories/Props/C18.vo"]
 COQ_TARGETS = COQ_TARGETS + [t for t in iotie.COQ_TARGETS if t not in COQ_TARGETS]
+COQ_TARGETS = COQ_TARGETS + [t for t in serdesasttie.COQ_TARGETS_ITER if t not in COQ_TARGETS]
 THEOREMS = ["C18_items", "C18_values", "C18_full_repaired", "C18_once", "C18_nondestructive",
             "C18_strategy_per_class", "C18_pinned_peek_nonempty", "C18_refuted_namedtuple",
             "C18_refuted_empty_iter", "C18_refuted_signature_fields", "C18_refuted_private_slots",
@@ -273,6 +275,9 @@ def correspond(run: lib.Run):
     run.samples.append({k: v for k, v in cases[min(len(cases) - 1, 60)].items()})
     run._c18_bad = [descs[i] for i in bad[:200]]
     lib.run_tie(run, iotie)      # Core.itervalues/iteritems/load ARE these models (Props/IoBridge.v) + direct core-io stream
+    # the source of serdes.py, parsed and translated on this run, IS the model's function (Props/SerdesAst*.v + coq/dyn/SerdesAst)
+    lib.run_tie(run, serdesasttie, parts=("iter",))
+    run.tie_failures = list(getattr(run, "tie_failures", [])) + list(serdesasttie.search(run, parts=("iter",)))
 
 
 # ----------------------------------------------------------------------------------
